@@ -1,4 +1,5 @@
 import TR.Lemmas.Bulkhead2
+import TR.Lemmas.BulkheadMulti
 /-!
 # C07 — the bulkhead never loses capacity and rejects only by timeout
 -/
@@ -83,5 +84,85 @@ example :
     Ev.result 2 .timeout ∈ s.log ∧ s.queue.count 3 = 1 ∧
     (run { max := 1, maxWait := some 10 } (ops ++ [.drop 3] ++ [.adv 100, .poll 1, .arrive 4 ⟨0, .ok⟩, .poll 4])).serial = 2 := by
   decide
+
+/-! ## several services built from one layer value; refused requests; presets -/
+
+/-- **Services built from one layer value (or from clones of it) share nothing.** An operation of a caller on
+service `i` — arrival, refused arrival, poll (admission, completion, rejection), cancellation — leaves the state of
+every other service `j` as it was: free permits, queue, permits handed over, calls in flight, deadlines, event log.
+(Only the call serial of the scripted backend, common to the harness's inner services, moves.) -/
+theorem services_independent (cfg : Cfg) (ms : MState) (i j : Nat) (op : Op) (hij : j ≠ i) (hop : ∀ d, op ≠ .adv d) :
+    ∃ n, (stepM cfg ms i op).insts j = { ms.insts j with serial := (ms.insts j).serial + n } :=
+  stepM_other cfg ms i j op hij hop
+
+/-- The operation itself acts on its service exactly as on a single bulkhead. -/
+theorem service_step (cfg : Cfg) (ms : MState) (i c : Nat) :
+    (stepM cfg ms i (.poll c)).insts i = stepS cfg (ms.insts i) (.poll c) := by
+  simp [stepM]
+
+/-- **An idle service admits at once, whatever the other services hold.** After any multi-service history, a caller
+of service `i` polled for the first time while fewer than `max` calls are in flight *in service `i`* and nobody of
+service `i` has been handed a permit reaches the inner service in that very step — no matter how many calls are
+running or queued in the other services built from the same layer. -/
+theorem service_admit_at_once (cfg : Cfg) (mops : List (Nat × Op)) (i c : Nat)
+    (hf : ((runM cfg mops).insts i).fresh.contains c = true)
+    (hr : ((runM cfg mops).insts i).running.length < cfg.max)
+    (ha : ((runM cfg mops).insts i).assigned = []) :
+    ∃ rest, ((stepM cfg (runM cfg mops) i (.poll c)).insts i).log
+      = ((runM cfg mops).insts i).log ++ Ev.innerCall c ((runM cfg mops).insts i).serial :: rest := by
+  rw [service_step]
+  rw [runM_synced] at hf hr ha ⊢
+  exact admit_at_once cfg _ c hf hr ha
+
+/-- Each service gets all its permits back once nothing of ITS OWN is in flight. -/
+theorem service_quiescent_full (cfg : Cfg) (mops : List (Nat × Op)) (i : Nat)
+    (h1 : ((runM cfg mops).insts i).running = []) (h2 : ((runM cfg mops).insts i).assigned = []) :
+    ((runM cfg mops).insts i).free = cfg.max := by
+  rw [runM_synced] at h1 h2 ⊢
+  exact quiescent_full cfg _ h1 h2
+
+/-- In every service, a rejected request never reaches the wrapped service. -/
+theorem service_rejected_never_runs (cfg : Cfg) (mops : List (Nat × Op)) (i c : Nat)
+    (h : Ev.result c .timeout ∈ ((runM cfg mops).insts i).log) : ∀ k, Ev.innerCall c k ∉ ((runM cfg mops).insts i).log := by
+  rw [runM_synced] at h ⊢
+  exact rejected_never_runs cfg _ c h
+
+/-- **A request refused because its handle did not become ready never reaches the wrapped service**, whatever
+happens afterwards. -/
+theorem refused_never_runs (cfg : Cfg) (ops ops' : List Op) (c : Nat) (kind : Option Nat)
+    (hk : known (run cfg ops) c = false) :
+    ∀ k, Ev.innerCall c k ∉ (run cfg (ops ++ [.refuse c kind] ++ ops')).log := by
+  have h2 := inv2_reachable cfg ops
+  have hocc : occ (run cfg ops) c = 0 := by
+    by_cases ho : occ (run cfg ops) c ≥ 1
+    · have := h2.isKnown c ho; rw [hk] at this; cases this
+    · omega
+  obtain ⟨r, _, f1, f2, f3, f4, f5, f6⟩ := refuseCall_fields (run cfg ops) c kind
+  have hstep : stepS cfg (run cfg ops) (.refuse c kind) = refuseCall (run cfg ops) c kind := by
+    simp only [stepS, hk, Bool.false_eq_true, if_false]
+  have := gone_forever cfg ops' (stepS cfg (run cfg ops) (.refuse c kind)) c
+    (by rw [hstep]; simp only [known, f6, lookup, if_true]; rfl)
+    (by rw [hstep]; simp only [occ, f1, f2, f3, f4] at hocc ⊢; exact hocc)
+    (by
+      rw [hstep]; intro k hm; rw [f5] at hm
+      rcases List.mem_append.mp hm with hm | hm
+      · exact (h2.unknown c hk).1 k hm
+      · simp at hm)
+  simpa [run, List.foldl_append, NoCall] using this
+
+/-- The presets reject at once when full (zero wait) and are otherwise ordinary configurations: every theorem above
+applies to them. -/
+theorem presets_reject_when_full :
+    presetSmall.maxWait = some 0 ∧ presetMedium.maxWait = some 0 ∧ presetLarge.maxWait = some 0 ∧
+    presetSmall.max = 10 ∧ presetMedium.max = 50 ∧ presetLarge.max = 200 := by decide
+
+/-- Non-vacuity: service 0 (`max = 1`, wait 10) is full; its second caller is rejected at the deadline; meanwhile
+service 1, built from the same layer, admits its caller at once and is not touched by any of it. -/
+example :
+    let mops : List (Nat × Op) := [(0, .arrive 1 ⟨100, .ok⟩), (0, .poll 1), (0, .arrive 2 ⟨0, .ok⟩), (0, .poll 2),
+      (1, .arrive 3 ⟨100, .ok⟩), (1, .poll 3), (0, .adv 10), (0, .poll 2)]
+    let ms := runM { max := 1, maxWait := some 10 } mops
+    (ms.insts 0).log = [.innerCall 1 0, .result 2 .timeout] ∧ (ms.insts 1).log = [.innerCall 3 1] ∧
+    (ms.insts 1).running = [3] ∧ (ms.insts 0).now = 10 ∧ (ms.insts 1).now = 10 := by decide
 
 end TR.Props.C07
